@@ -241,6 +241,8 @@ type c08obs struct {
 	// early: a context.WithTimeout scenario whose deadline passed before the request was even written (a machine busy
 	// enough to stall the call for the whole timeout): not what the scenario is about, it is re-run like a failed timing clause
 	early bool
+	// stale: … and the reason is the harness's own delay between creating the context and calling Exchange
+	stale bool
 }
 
 func (o c08obs) String() string {
@@ -449,10 +451,12 @@ func runC08(sc *c08scenario) c08obs {
 	}
 	var ctx context.Context
 	var cancel context.CancelFunc
+	var ctxCreated time.Time
 	switch sc.cancel {
 	case "predeadline":
 		ctx, cancel = context.WithDeadline(context.Background(), time.Now().Add(-time.Second))
 	case "deadline":
+		ctxCreated = time.Now()
 		ctx, cancel = context.WithTimeout(context.Background(), sc.delay)
 	default:
 		ctx, cancel = context.WithCancel(context.Background())
@@ -488,6 +492,10 @@ func runC08(sc *c08scenario) c08obs {
 		cancelTime = start
 	}
 	callStarted.Store(true)
+	// the premise of a WithTimeout scenario is that the call BEGINS with (most of) its time budget: on a machine
+	// busy enough to spend half of it between the creation of the context and this point (the baselines above
+	// walk every goroutine's stack) the run says nothing about the library - it is re-measured
+	staleDeadline := sc.cancel == "deadline" && !ctxCreated.IsZero() && 2*start.Sub(ctxCreated) > sc.delay
 	var fdAtReturn atomic.Int64
 	fdAtReturn.Store(-1)
 	c08Go(func() {
@@ -581,6 +589,9 @@ func runC08(sc *c08scenario) c08obs {
 	}
 	close(stop)
 	obs.class = c08Class(r.err)
+	if staleDeadline {
+		obs.early, obs.stale = true, true
+	}
 	obs.t0Ms = int(time.Duration(ctrlAt.Load()) / time.Millisecond)
 	endMs := int(r.at.Sub(start) / time.Millisecond)
 	obs.end = itoa(endMs)
@@ -888,6 +899,11 @@ func evalC08(op string, args []string) string {
 			break
 		}
 		time.Sleep(50 * time.Millisecond)
+	}
+	if o.stale {
+		// three runs, and in each half of the time budget was gone before the call could begin: the machine, not
+		// the library, was observed
+		return "INCONCLUSIVE deadline-spent-before-the-call-began"
 	}
 	return o.String()
 }
